@@ -66,7 +66,7 @@ func sameXYBits(a, b geom.XY) bool {
 func c19Sequences(r *engine.Run) {
 	depth := 4
 	if r.Thorough() {
-		depth = 6
+		depth = 7
 	}
 	probe := geom.XY{X: 23.5, Y: 41.25}
 	var states, steps int64
